@@ -92,6 +92,12 @@ def lastNorm (n : String) (args : List T) : T :=
   | _ => .node "PathSegment" [] [.node "Ident" [n] [],
       .node "PathArguments::AngleBracketed" [] [.node "Ign" [] [], .node "List" [] args]]
 
+/-- … or, for a parenthesized argument list (`Fn(A) -> B`), from the identifier and the argument node (kept as it is) -/
+def lastNormK (n : String) (args : List T) (paren : Option T) : T :=
+  match paren with
+  | some x => .node "PathSegment" [] [.node "Ident" [n] [], x]
+  | none => lastNorm n args
+
 theorem segIdent_some_inv {s : T} {n : String} (h : segIdent s = some n) :
     ∃ x, s = .node "PathSegment" [] [.node "Ident" [n] [], x] := by
   unfold segIdent at h
@@ -102,7 +108,8 @@ theorem segIdent_some_inv {s : T} {n : String} (h : segIdent s = some n) :
 /-- the normalised trait path of a well-formed path is a function of its leading colon and its dispatch key -/
 theorem normTr_wf {p : T} (hp : wfPath p = true) :
     ∃ n, lastIdent p = some n ∧
-      normTr p = mkPath (lcOf p) ((initSegs p).map normSeg ++ [lastNorm n (nonAssoc (lastArgs p))]) := by
+      normTr p = mkPath (lcOf p) ((initSegs p).map normSeg ++
+        [lastNormK n (nonAssoc (lastArgs p)) (lastParen p)]) := by
   obtain ⟨l, hl, hg⟩ := wfPath_last hp
   have hne : pathSegments p ≠ [] := by
     intro e; unfold lastSeg at hl; rw [e] at hl; cases hl
@@ -139,8 +146,9 @@ theorem normTr_wf {p : T} (hp : wfPath p = true) :
       · exact he
     rw [normTr_of_strip hstrip]
     have hla : lastArgs (mkPath lc segs) = [] := by simp [lastArgs, hl, hs]
-    rw [hla, hsegs]
-    simp [nonAssoc, lastNorm, normSeg]
+    have hlp : lastParen (mkPath lc segs) = none := by simp [lastParen, hl, hs]
+    rw [hla, hlp, hsegs]
+    simp [nonAssoc, lastNorm, lastNormK, normSeg]
   | angle args =>
     have hx : ∃ c2, x = .node "PathArguments::AngleBracketed" [] [c2, .node "List" [] args] := by
       obtain ⟨id, c2, he⟩ := segArgs_angle_inv hs
@@ -153,13 +161,32 @@ theorem normTr_wf {p : T} (hp : wfPath p = true) :
       rw [hsegs]; exact stripBindings_angle lc i _ c2 args
     rw [normTr_of_strip hstrip]
     have hla : lastArgs (mkPath lc segs) = args := by simp [lastArgs, hl, hs]
-    rw [hla]
-    simp only [List.map_append, List.map_cons, List.map_nil]
+    have hlp : lastParen (mkPath lc segs) = none := by simp [lastParen, hl, hs]
+    rw [hla, hlp]
+    simp only [List.map_append, List.map_cons, List.map_nil, lastNormK]
     congr 3
     cases nonAssoc args with
     | nil => rfl
     | cons a as => rfl
-  | paren => rw [hs] at hg; cases hg
+  | paren y =>
+    obtain ⟨id, as, ks, he, hy⟩ := segArgs_paren_inv hs
+    have hx : x = .node "PathArguments::Parenthesized" as ks := by
+      injection he with _ _ he; injection he with _ he; injection he with he _
+    subst hx
+    have hstrip : stripBindings (mkPath lc segs) = mkPath lc segs := by
+      rcases stripBindings_cases (mkPath lc segs) with ⟨lc', i', id, c2, args, he⟩ | ⟨he, _⟩
+      · exfalso
+        have h1 := lastSeg_mkPath lc' i' (angleSeg id c2 args)
+        rw [← he, hl] at h1
+        injection h1 with h1
+        rw [h1, segArgs_angleSeg] at hs
+        cases hs
+      · exact he
+    rw [normTr_of_strip hstrip]
+    have hla : lastArgs (mkPath lc segs) = [] := by simp [lastArgs, hl, hs]
+    have hlp : lastParen (mkPath lc segs) = some y := by simp [lastParen, hl, hs]
+    rw [hla, hlp, hsegs, hy]
+    simp [lastNormK, normSeg]
   | bad => rw [hs] at hg; cases hg
 
 theorem normTr_eq_of_sameKey {p q : T} (hp : wfPath p = true) (hq : wfPath q = true)
@@ -171,7 +198,7 @@ theorem normTr_eq_of_sameKey {p q : T} (hp : wfPath p = true) (hq : wfPath q = t
   have : n = m := by
     have := hk.2.1; rw [hn, hm] at this; exact Option.some.inj this
   subst this
-  rw [e1, e2, hlc, hk.1, hk.2.2]
+  rw [e1, e2, hlc, hk.1, hk.2.2.1, hk.2.2.2]
 
 /-! ### The abstraction of a model group -/
 
